@@ -6,6 +6,7 @@ import (
 	"context"
 	"errors"
 	"fmt"
+	"os"
 	"sort"
 	"testing"
 
@@ -13,6 +14,7 @@ import (
 
 	"github.com/oasisprotocol/oasis-core/go/common/crypto/hash"
 	storageApi "github.com/oasisprotocol/oasis-core/go/storage/api"
+	storageDB "github.com/oasisprotocol/oasis-core/go/storage/database"
 	"github.com/oasisprotocol/oasis-core/go/storage/mkvs"
 	dbApi "github.com/oasisprotocol/oasis-core/go/storage/mkvs/db/api"
 	"github.com/oasisprotocol/oasis-core/go/storage/mkvs/node"
@@ -201,11 +203,21 @@ func TestC13Sync(t *testing.T) {
 			rootType = node.RootTypeIO
 		}
 		uni := kv.GenUniverse(t, rapid.IntRange(1, 25).Draw(t, "nuni"), false)
-		src, err := kv.OpenDB(srcBackend, "", true)
+		// the source is a storage backend (what answers GetDiff requests of peers) on top of the node database
+		srcDir := kv.TempDir("c13src")
+		defer os.RemoveAll(srcDir)
+		srcStore, err := storageDB.New(&storageApi.Config{Backend: srcBackend, DB: srcDir, Namespace: kv.Namespace, MaxCacheSize: 16 << 20, NoFsync: true, MemoryOnly: true})
 		if err != nil {
 			ev.Infra(t, "open: %v", err)
 		}
-		defer src.Close()
+		defer srcStore.Cleanup()
+		src := srcStore.NodeDB()
+		// earlier finalized roots of this history with their contents (start roots a peer might name in a request)
+		type pastRoot struct {
+			root  node.Root
+			model kv.Model
+		}
+		var past []pastRoot
 		dst, err := kv.OpenDB(dstBackend, "", true)
 		if err != nil {
 			ev.Infra(t, "open: %v", err)
@@ -371,6 +383,12 @@ func TestC13Sync(t *testing.T) {
 					if !applyToModel(startM, wl).Equal(model) {
 						fail("served-log-wrong", "%s: write log served for %s->%s does not transform the start contents into the end contents: log=%s", when, start.Hash.String()[:8], rh.String()[:8], fmtLog(wl))
 					}
+					// the same pair asked for through the storage backend, the way a peer's GetDiff request arrives
+					if dit, derr := srcStore.GetDiff(ctx, &storageApi.GetDiffRequest{StartRoot: start, EndRoot: endRoot}); derr != nil {
+						fail("served-log-unreadable", "%s: the node database serves a write log for %s->%s, the storage backend's GetDiff does not: %v", when, start.Hash.String()[:8], rh.String()[:8], derr)
+					} else if dwl, derr := drain(dit); derr != nil || !applyToModel(startM, dwl).Equal(model) {
+						fail("served-log-wrong", "%s: GetDiff of the storage backend for %s->%s (v%d) does not transform the start contents into the end contents (%v): log=%s", when, start.Hash.String()[:8], rh.String()[:8], v, derr, fmtLog(dwl))
+					}
 					// applied to a real tree at the start root it must hash to the end root
 					var tr mkvs.Tree
 					if start.Hash.IsEmpty() {
@@ -477,6 +495,22 @@ func TestC13Sync(t *testing.T) {
 						// the merged two-hop log from the empty root
 						checkServed("finalized-two-hop", versionStart, versionStartModel)
 					}
+					// a request that names ANOTHER start root (an earlier finalized root of this history, the empty root): the
+					// backend may decline; whatever it serves must lead from THAT root to the end root
+					if len(past) > 0 && rapid.IntRange(0, 2).Draw(t, "foreignStart") == 0 {
+						pr := past[rapid.IntRange(0, len(past)-1).Draw(t, "foreignStartIdx")]
+						if pr.root.Hash != prevRoot.Hash {
+							if dit, derr := srcStore.GetDiff(ctx, &storageApi.GetDiffRequest{StartRoot: pr.root, EndRoot: endRoot}); derr == nil {
+								rec.Label("foreign-start-root:served")
+								if dwl, derr := drain(dit); derr != nil || !applyToModel(pr.model, dwl).Equal(model) {
+									fail("served-log-wrong", "GetDiff for the start root %s (v%d), which is not the root v%d %s was committed from, serves a log that does not lead from it to the end root (%v): log=%s", pr.root.Hash.String()[:8], pr.root.Version, v, rh.String()[:8], derr, fmtLog(dwl))
+								}
+							} else {
+								rec.Label("foreign-start-root:declined")
+							}
+						}
+					}
+					past = append(past, pastRoot{endRoot, model.Clone()})
 				}
 				// (B) follower apply
 				honest := served
